@@ -296,6 +296,11 @@ class Check:
             muts = sorted(set(map(str, _vm.INPUT_MUTATIONS)))
             self.violation("a calculator call modified the caller's input arrays in place: %s" % ", ".join(muts),
                            {"calls": muts, "count": len(_vm.INPUT_MUTATIONS)}, key="input-arrays-mutated")
+        if _vm is not None:
+            sm = sorted(set(_vm.state_mutations()))
+            if sm:
+                self.violation("evaluating transport coefficients changed stored arrays of the calculator: %s" % ", ".join(sm[:8]),
+                               {"attributes": sm}, key="calculator-state-mutated")
         # a broken proof / correspondence with no concrete failing input is still a violation
         if hasattr(self, "broken_proof") and not self.violations:
             self.violation("proof obligation no longer checks: " + self.broken_proof.split("\n")[0],
